@@ -13,7 +13,8 @@ Definition show_log (l: list logent) : list N := nlen l :: concat (map (fun e =>
 Definition show_packets (l: list packet) : list N := nlen l :: concat (map show_packet l).
 
 (* operations *)
-Inductive pop := PAdd (h: handler) | PRemove (id: N) | PTick (gs: list gres) (ans: list N) | PSend (p: packet) (ans: list N).
+Inductive pop := PAdd (h: handler) | PRemove (id: N) | PTick (gs: list gres) (ans: list N) | PSend (p: packet) (ans: list N)
+  | PExch (cap: bool) (k: kind) (multi: bool) (p: packet) (gs: list gres) (ans: list N).
 Definition parse_gres (l: list N) : option (gres * list N) :=
   match l with
   | 0 :: r => match parse_packet r with Some (p, r') => Some (GPacket p, r') | None => None end
@@ -31,6 +32,12 @@ Definition parse_op (l: list N) : option pop :=
                    | Some (gls, ans) => match parse_gets0 gls with Some gs => Some (PTick gs ans) | None => None end
                    | None => None end
   | 3 :: r => match parse_packet r with Some (p, ans) => Some (PSend p ans) | None => None end
+  | 4 :: cap :: kc :: multi :: r =>
+      match kind_of_code kc, parse_packet r with
+      | Some k, Some (p, n :: r1) => match parse_lists_n (N.to_nat n) r1 with
+                                     | Some (gls, ans) => match parse_gets0 gls with Some gs => Some (PExch (negb (cap =? 0)) k (negb (multi =? 0)) p gs ans) | None => None end
+                                     | None => None end
+      | _, _ => None end
   | _ => None
   end.
 Fixpoint parse_ops (ls: list (list N)) : option (list pop) :=
@@ -44,12 +51,26 @@ Definition pro_split (case: list N) : option (N * list pop) :=
 (* result, handler log, what went to the link, and how many incoming results are still queued *)
 Definition show_dispatch (r: out unit perr * list logent * iface) : list N :=
   let '(ret, log, i) := r in show_pret ret ++ show_log log ++ show_packets (i_sent i) ++ [nlen (i_gets i)].
+Definition show_trace (sent: list packet) (tr: list tev) : list N :=
+  let evs := map (fun p => 1 :: show_packet p) sent ++ map (fun e => match e with TWait => [2] | TGet _ => [3] end) tr in
+  nlen evs :: concat evs.
+(* one exchange_packet / exchange_packets call: result, handler log, trace (transmissions, the wait callback, polls), incoming results left *)
+Definition exc_obs (own: N) (cap: bool) (k: kind) (multi: bool) (p: packet) (t: table) (gs: list gres) (ans: list N) : list N :=
+  if multi then
+    let '(r, log, tr, i2) := exchangeN own t p cap k (mkI gs ans []) in
+    (match r with Val es => 0 :: show_lists (map event_fields es) | Fail e => [1; perr_code e] | Panic => [2] | Hang => [3] end)
+    ++ show_log log ++ show_trace (i_sent i2) tr ++ [nlen (i_gets i2)]
+  else
+    let '(r, log, tr, i2) := exchange1 own t p cap k (mkI gs ans []) in
+    (match r with Val e => 0 :: show_lists [event_fields e] | Fail e => [1; perr_code e] | Panic => [2] | Hang => [3] end)
+    ++ show_log log ++ show_trace (i_sent i2) tr ++ [nlen (i_gets i2)].
 Definition op_obs (own: N) (t: table) (o: pop) : table * list N :=
   match o with
   | PAdd h => let '(t', id) := add_handler t h in (t', [0; id])
   | PRemove id => let '(t', r) := remove_handler t id in (t', show_pret r)
   | PTick gs ans => (t, show_dispatch (tick own t (mkI gs ans [])))
   | PSend p ans => (t, show_dispatch (send_packet own t p (mkI [] ans [])))
+  | PExch cap k multi p gs ans => (t, exc_obs own cap k multi p t gs ans)
   end.
 Fixpoint pro_run (own: N) (t: table) (ops: list pop) : list (list N) :=
   match ops with [] => [] | o :: r => let '(t', x) := op_obs own t o in x :: pro_run own t' r end.
@@ -60,7 +81,7 @@ Definition run_PRO (case: list N) : list N :=
 Definition parse_obs_lists (obs: list N) : option (list (list N)) :=
   match obs with n :: r => match parse_lists_n (N.to_nat n) r with Some (ls, []) => Some ls | _ => None end | [] => None end.
 
-(* kind: 15 = tick clauses, 16 = send clauses, 17 = registry clauses *)
+(* kind: 15 = tick clauses, 16 = send clauses, 17 = registry clauses, 18 = exchange clauses *)
 Fixpoint pro_walk (own: N) (t: table) (ops: list pop) (obs: list (list N)) (step: N) : list (N * list N) * list (N * list N) :=
   (* (views tagged by property, failures tagged by property) *)
   match ops, obs with
@@ -94,8 +115,13 @@ Fixpoint pro_walk (own: N) (t: table) (ops: list pop) (obs: list (list N)) (step
           let expect := show_dispatch (send_packet own t p (mkI [] ans [])) in
           let '(vs, fs) := pro_walk own t ops' obs' (step + 1) in
           ((16, [b2N (list_eqb x expect)]) :: vs, if list_eqb x expect then fs else (16, [160; step]) :: fs)
+      | PExch cap k multi p gs ans =>
+          (* an exchange on a protocol object with a history (earlier exchanges, ticks, sends): nothing may be carried over *)
+          let expect := exc_obs own cap k multi p t gs ans in
+          let '(vs, fs) := pro_walk own t ops' obs' (step + 1) in
+          ((18, [b2N (list_eqb x expect)]) :: vs, if list_eqb x expect then fs else (18, [183; step]) :: fs)
       end
-  | _, _ => ([(0, [3054])], [(15, [3054]); (16, [3054]); (17, [3054])])
+  | _, _ => ([(0, [3054])], [(15, [3054]); (16, [3054]); (17, [3054]); (18, [3054])])
   end.
 Definition pro_eval (prop: N) (case obs: list N) : list N * list N :=
   match pro_split case, parse_obs_lists obs with
@@ -111,6 +137,8 @@ Definition view_C16 (case obs: list N) := fst (pro_eval 16 case obs).
 Definition ok_C16 (case obs: list N) := snd (pro_eval 16 case obs).
 Definition view_C17 (case obs: list N) := fst (pro_eval 17 case obs).
 Definition ok_C17 (case obs: list N) := snd (pro_eval 17 case obs).
+Definition view_C18_PRO (case obs: list N) := fst (pro_eval 18 case obs).
+Definition ok_C18_PRO (case obs: list N) := snd (pro_eval 18 case obs).
 
 (* ---------- EXC ---------- *)
 (* case: own cap kind multi | request packet | nhandlers handlers(each as a length-prefixed add op body) | ngets gets (each length-prefixed) | send answers *)
@@ -135,20 +163,9 @@ Definition exc_split (case: list N) : option (N * bool * kind * bool * packet * 
       | _, _ => None end
   | _ => None
   end.
-Definition show_trace (sent: list packet) (tr: list tev) : list N :=
-  let evs := map (fun p => 1 :: show_packet p) sent ++ map (fun e => match e with TWait => [2] | TGet _ => [3] end) tr in
-  nlen evs :: concat evs.
 Definition run_EXC (case: list N) : list N :=
   match exc_split case with
-  | Some (own, cap, k, multi, p, t, gs, ans) =>
-      if multi then
-        let '(r, log, tr, i2) := exchangeN own t p cap k (mkI gs ans []) in
-        (match r with Val es => 0 :: show_lists (map event_fields es) | Fail e => [1; perr_code e] | Panic => [2] | Hang => [3] end)
-        ++ show_log log ++ show_trace (i_sent i2) tr ++ [nlen (i_gets i2)]
-      else
-        let '(r, log, tr, i2) := exchange1 own t p cap k (mkI gs ans []) in
-        (match r with Val e => 0 :: show_lists [event_fields e] | Fail e => [1; perr_code e] | Panic => [2] | Hang => [3] end)
-        ++ show_log log ++ show_trace (i_sent i2) tr ++ [nlen (i_gets i2)]
+  | Some (own, cap, k, multi, p, t, gs, ans) => exc_obs own cap k multi p t gs ans
   | None => BAD
   end.
 Definition view_C18 (case obs: list N) : list N := obs.
